@@ -2045,3 +2045,18 @@ for _pre in ('core::str::<impl str>::', 'std::str::<impl str>::'):
 @model('std::hint::must_use', 'core::hint::must_use')
 def _must_use(eng, st, fr, t, args, dest, target):
     return args[0]
+
+
+@model('<T as std::convert::TryInto<U>>::try_into')
+def _try_into(eng, st, fr, t, args, dest, target):
+    # the blanket impl: U::try_from(self)
+    ga = t['callee'].get('gargs') or []
+    if len(ga) >= 2:
+        T, U = ga[0], ga[1]
+        for p, b in eng.facts.bodies.items():
+            io = b.impl_of
+            if io and (io.get('trait') or '').endswith('convert::TryFrom') and io.get('self_ty') == U and b.arg_count == 1 and \
+                    b.locals[1]['s'] == T and p.split('::')[-1] == 'try_from':
+                eng.push_call(st, b, [args[0]], dest, target, None, None)
+                return DEFER
+    return _opaque(eng, st, t, args)
